@@ -4,7 +4,9 @@ Lean: DinoProofs/Properties/C03.lean over the model Dino/Implicit.lean (+ Dino/S
 Tie: H matrix, dense/sparse vertical products, the block matrix, implicit_terms and the three
 solve strategies of the real PrimitiveEquations are compared column by column with the model;
 numpy.linalg.inv is external (its outputs are captured and passed to the model, and its
-left-inverse contract is checked on every captured matrix).
+left-inverse contract is checked on every captured matrix).  For method='blockwise' the two matrices
+handed to numpy.linalg.inv are themselves compared with the model's blockwiseDivMatrix / blockwiseTpMatrix
+(the matrices the hypotheses of Dino.C03.blockwise_is_resolvent are about).  All comparisons use 1e-9.
 """
 import numpy as np
 
@@ -51,6 +53,11 @@ def run(ctx: common.Ctx):
 
   rng = ctx.rng
   lines, checks = [], []
+  # the model of the two matrices method='blockwise' passes to numpy.linalg.inv (present once the bridge
+  # theorems blockwise_is_resolvent* are merged)
+  import os
+  _src = os.path.join(common.LEAN, 'Dino', 'Implicit.lean')
+  has_blockmat = os.path.exists(_src) and 'blockwiseDivMatrix' in open(_src).read()
 
   def add(line, op, inp, impl, kind='vec'):
     lines.append(line)
@@ -133,6 +140,12 @@ def run(ctx: common.Ctx):
       if not captured:
         ctx.corr_mismatch('implicit_inverse', dict(base, method=smethod), 'no call to numpy.linalg.inv', 'external inv expected')
         continue
+      want_shapes = ([(len(lam_all), 2 * n + 1, 2 * n + 1)] if smethod != 'blockwise' else
+                     [(len(lam_all), n, n), (len(lam_all), n + 1, n + 1)])
+      if [a.shape for a, _ in captured] != want_shapes:
+        ctx.corr_mismatch('implicit_inverse', dict(base, method=smethod), [list(a.shape) for a, _ in captured],
+                          [list(w) for w in want_shapes], 'matrices handed to numpy.linalg.inv')
+        continue
       # contract of the external call: left inverse
       for a, r in captured:
         res = np.abs(np.einsum('...ij,...jk->...ik', r, a) - np.eye(a.shape[-1])).max(axis=(-1, -2))
@@ -151,6 +164,12 @@ def run(ctx: common.Ctx):
               inp, exp, 'col')
         else:
           dinv, tpinv = captured[0][1][l], captured[1][1][l]
+          if has_blockmat:
+            # the hypotheses of blockwise_is_resolvent are about exactly these two matrices: what the code handed
+            # to numpy.linalg.inv must be the model's I - M[div,tp] @ M[tp,div] and I - M[tp,div] @ M[div,tp]
+            for which, (a_in, _r) in zip(('div', 'tp'), captured[:2]):
+              add(f'implicit F blockmat {which} {fbits(eta)} {fbits(lam_all[l])} {fbits(R)} {common_args}',
+                  f'implicit_inverse[blockwise].inverted-matrix[{which}]', dict(base, l=l, which=which), a_in[l], 'mat')
           add(f'implicit F invblock {fbits(eta)} {fbits(lam_all[l])} {fbits(R)} {common_args} {fmat(dinv)} {fmat(tpinv)} '
               f'{fvec(d)} {fvec(t)} {fbits(p)}', 'implicit_inverse[blockwise]', inp, exp, 'col')
       ctx.expect(np.array_equal(np.asarray(inv_state.vorticity), np.asarray(state.vorticity)) and
@@ -242,6 +261,7 @@ def run(ctx: common.Ctx):
     ctx.expect(err < 1e-9, 'sw-resolvent', f'shallow-water implicit_inverse(x - eta L x) != x: {err:.3e}', inp)
 
   outs = ctx.model(lines)
+  col_worst = {}
   for (op, inp, impl, kind), o in zip(checks, outs):
     if o in ('bad-op', 'value-error'):
       ctx.corr_mismatch(op, inp, 'impl ok', o, 'model rejected the operation')
@@ -250,11 +270,18 @@ def run(ctx: common.Ctx):
       ctx.corr_float(op, inp, np.asarray(impl), np.asarray(unfmat(o)))
     elif kind == 'col':
       d, t, p = _parse_col(o)
-      ctx.corr_float(op, inp, np.concatenate([impl[0], impl[1], [impl[2]]]), np.concatenate([d, t, [p]]),
-                     rtol=1e-8)
+      a_ = np.concatenate([impl[0], impl[1], [impl[2]]])
+      b_ = np.concatenate([d, t, [p]])
+      if a_.shape == b_.shape and np.isfinite(a_).all() and np.isfinite(b_).all() and np.abs(a_).max() > 0:
+        col_worst[op] = max(col_worst.get(op, 0.0), float(np.abs(a_ - b_).max() / np.abs(a_).max()))
+      ctx.corr_float(op, inp, a_, b_, rtol=TOL)
     else:
       ctx.corr_float(op, inp, impl, unfvec(o))
 
+  ctx.notes.append('worst relative deviation model vs code on column outputs (tolerance %g): ' % TOL +
+                   ', '.join(f'{k}={v:.2e}' for k, v in sorted(col_worst.items())))
+  if os.environ.get('C03_VERBOSE'):
+    print('col_worst', col_worst)
   if not ctx.quick:
     ctx.leanchecker(['DinoProofs.Properties.C03'])
   return ctx.finish(RULE, 'numpy.linalg.inv is external: its left-inverse contract is checked on every matrix it was '
